@@ -139,21 +139,15 @@ def run(ck):
             ck.anchor_missing("4", "T2-all-exits", q + ": inner process_events with a drain closure")
             continue
         cl = cls[0]
-        caps = common.closure_captures(b2, cl)
-        # flags: bool parent locals captured by the closure and switched on in the parent
-        flags = {}
-        for n, (loc, aps, _) in caps.items():
-            if loc is not None and f.types[b2.local_ty(loc)]["s"] == "bool":
-                flags[n] = loc
+        # flags: cells of the parent (bool / Option locals, or such fields of a captured struct) that the closure sets
+        # and the parent tests afterwards
+        cells = common.ClosureCells(b2, cl)
         pings = [cs for cs in T.calls(b2, name="ping") if T.path_has(b2, cs.args[0], ".ping")]
         ok_e, err_e, _ = T.result_split(b2, inner[0].bb)
         exempt = []
-        for sw, blk in enumerate(b2.blocks):
-            if blk["term"]["t"] != "switch" or b2.is_cleanup(sw):
-                continue
-            if T.copy_chain_locals(b2, blk["term"]["on"]) & set(flags.values()):
-                zero = [tgt for v, tgt in blk["term"]["targets"] if v == 0]
-                exempt += [(sw, tgt) for tgt, lab in b2.succ_edges(sw) if tgt not in zero]
+        for cell in cells.cells():
+            yes, no = cells.set_edges(cell)
+            exempt += yes
         starts = [x for _, x in ok_e] or [inner[0].to]
         okret = [i for i, j, st in b2.statements() if st["s"] == "assign" and st["pl"]["l"] in T.ret_locals(b2) and st["rv"]["r"] == "agg" and st["rv"].get("variant") == "Ok" and not b2.is_cleanup(i)]
         bad = T.t2_all_exits(b2, starts, [p.bb for p in pings], exits=okret, removed_edges=exempt)
@@ -165,11 +159,10 @@ def run(ck):
             continue
         ok_c, err_c, _ = T.result_split(cl, tr[0].bb)
         nst = 0
-        for n in flags:
-            for i, j, st in cl.statements():
-                if st["s"] == "assign" and st["rv"]["r"] == "use" and st["rv"]["o"].get("k", {}).get("v") == 1 and T.path_has(cl, st["pl"], "." + n):
-                    nst += 1
-                    ck.verdict(bool(err_c) and T.reachable_only_via(cl, i, err_c), "4", "T4-guarded-by", cl, "flag:%s-set-only-on-try_recv-Err" % n, "`%s` is set only on the Err edge of try_recv (the queue was really observed empty / disconnected)" % n, "`%s` is set without try_recv having reported Empty/Disconnected: the source stops re-arming itself while messages may still be queued (or a close is never observed)" % n, site=cl.where(i))
+        for i, cell in cells.set_stores():
+            nst += 1
+            n = (b2.local_name(cell[0]) or "_%d" % cell[0]) + "".join("." + x for x in cell[1])
+            ck.verdict(bool(err_c) and T.reachable_only_via(cl, i, err_c), "4", "T4-guarded-by", cl, "flag:%s-set-only-on-try_recv-Err" % n, "`%s` is set only on the Err edge of try_recv (the queue was really observed empty / disconnected)" % n, "`%s` is set without try_recv having reported Empty/Disconnected: the source stops re-arming itself while messages may still be queued (or a close is never observed)" % n, site=cl.where(i))
         ck.floor("4", q + ": flag stores in the drain closure", nst, 1)
         # batch bound >= 1
         rng = [(i, st) for i, j, st in cl.statements() if st["s"] == "assign" and st["rv"]["r"] == "agg" and st["rv"].get("adt", "").endswith("ops::Range")]
